@@ -114,6 +114,46 @@ def inplace_stream(chk, b):
     oracle(chk, inp, msgs, seq, True, chk.rng)
 
 
+def rewritten_case(chk, describe, schema_line, classes, v):
+    """one object: dump(SIZE_DELIMITED), len(), grow in place, dump(SIZE_DELIMITED) again; read both frames back"""
+    from google.protobuf.internal import encoder as ref_encoder
+    from props.c09 import grow_in_place
+    ci = v[1]
+    try:
+        m = bpgen.to_py(v, classes)
+        s = io.BytesIO()
+        m.dump(s, betterproto.SIZE_DELIMITED)
+        first = bytes(m)
+        len(m)
+        if not grow_in_place(m):
+            return
+        m.dump(s, betterproto.SIZE_DELIMITED)
+        second = bytes(m)
+    except Exception as e:
+        chk.count("rewritten_skipped_" + type(e).__name__)
+        return
+    chk.count("rewritten_streams")
+    inp = {"schema": describe, "value": bpgen.term(v), "classes": [ci, ci],
+           "history": "dump(SIZE_DELIMITED); len(); containers grown in place; dump(SIZE_DELIMITED) again"}
+    chk.case(schema_line + "|rewritten|" + bpgen.term(v), True, {"rewritten": bpgen.term(v)[:200]})
+    data = s.getvalue()
+    want = ref_encoder._VarintBytes(len(first)) + first + ref_encoder._VarintBytes(len(second)) + second
+    if data != want:
+        chk.fail("framing-differs-after-in-place-change", inp, "%s vs %s" % (data.hex(), want.hex()))
+        return
+    res = read_stream([classes[ci], classes[ci]], data)
+    if len(res) != 2 or any(r[0] != "ok" for r in res) or bytes(res[0][1]) != first or bytes(res[1][1]) != second:
+        chk.fail("rewritten-stream-not-read-back", inp, repr([(r[0], repr(r[1])) for r in res]))
+
+
+def rewritten_stream(chk, b):
+    """the SAME object written twice with an in-place change in between (list.append, nested growth — no attribute
+    assignment on the object itself, and len() taken before the change): each frame must carry the length of what
+    follows it, and two loads must give back the two states"""
+    for v in b.values[:5]:
+        rewritten_case(chk, b.describe(), b.schema_line(), b.classes, v)
+
+
 def run(chk, drv):
     quick = chk.tier == "quick"
     rng = chk.rng
@@ -128,6 +168,7 @@ def run(chk, drv):
         if drv:
             assert drv.ask1(b.schema_line()) == "ok"
         inplace_stream(chk, b)
+        rewritten_stream(chk, b)
         for rep in range(2):
             n = rng.choice([0, 1, 2, 3, 4, 6])
             vals = [rng.choice(b.values) for _ in range(n)]
@@ -288,6 +329,12 @@ def search(chk):
 
 def replay(chk, rp):
     inp = (rp.get("failure") or {}).get("input") or {}
+    if "history" in inp and "value" in inp and "schema" in inp:
+        schema = schema_from_desc(inp["schema"])
+        classes = bpgen.build_bp(schema)
+        c = type(chk)(chk.pid, "thorough", 0)
+        rewritten_case(c, inp["schema"], "", classes, parse_term(inp["value"].split())[0])
+        return bool(c.oracle_failures)
     if "bytes" in inp and "schema" in inp:
         schema = schema_from_desc(inp["schema"])
         classes = bpgen.build_bp(schema)
